@@ -837,7 +837,7 @@ func (e *E1) quiesce(tickAt int64) {
 	if tickAt != 0 {
 		if !e.waitFor("send tick processed", func() bool {
 			for _, w := range ws {
-				if e1adLastTick(w) != tickAt {
+				if e1adLastTick(w) < tickAt { // == tickAt unless a shim moved the clock further meanwhile
 					return false
 				}
 			}
@@ -984,12 +984,13 @@ func (e *E1) Advance(d time.Duration) {
 	e.logOp("advance", d.String())
 	target := e.clock.Now().Add(d)
 	for e.failed == "" {
+		e.syncTicks()
 		next := e.t0.Add(time.Duration(e.ticksDone+1) * e.tick)
 		if next.After(target) {
 			break
 		}
 		e.beginStep()
-		e.clock.Advance(next.Sub(e.clock.Now()))
+		e.clock.Advance(max(next.Sub(e.clock.Now()), 0))
 		e.ticksDone++
 		e.ticks = append(e.ticks, E1Tick{Step: e.Step(), At: next.Sub(e.t0)})
 		e.quiesce(next.UnixNano())
@@ -1004,8 +1005,23 @@ func (e *E1) Advance(d time.Duration) {
 	}
 }
 
+// syncTicks re-aligns the driver's tick count with the clock. It changes nothing unless somebody other than
+// the driver moved the FakeClock (a sampler shim that "takes" fake time inside GetSampleRate, see C02's
+// slow-decisions list): the fake tickers stay on the grid t0+k·SendTicker, so the number of grid instants that
+// have passed is floor((now-t0)/tick). Ticks skipped that way were delivered (at most one buffered per ticker)
+// or dropped by the FakeClock, exactly as for a real overrunning worker.
+func (e *E1) syncTicks() {
+	if k := int64(e.clock.Now().Sub(e.t0) / e.tick); k > e.ticksDone {
+		e.ticksDone = k
+	}
+}
+
+// FakeClock exposes the shared clock to sampler shims that model slow decisions by advancing it.
+func (e *E1) FakeClock() *clockwork.FakeClock { return e.clock }
+
 // AdvanceToNextTick advances exactly onto the next send tick.
 func (e *E1) AdvanceToNextTick() {
+	e.syncTicks()
 	next := e.t0.Add(time.Duration(e.ticksDone+1) * e.tick)
 	e.Advance(next.Sub(e.clock.Now()))
 }
